@@ -432,7 +432,7 @@ class Machine:
       gin.constant(op[1], self.plain(op[2]))
       self.emit(None)
     elif k == 'interactive':
-      with gin.interactive_mode():
+      with gin.config.interactive_mode():
         for o in op[1]:
           self.exec_op(o, depth + 1)
     elif k == 'register':
